@@ -103,6 +103,21 @@ instance : ScalarIO Z64 := ⟨fun s => s.toInt?.map (fun i => (⟨i⟩ : Z64)), 
 
 instance : ScalarIO Float := ⟨parseFloatBits, fun f => some (printFloatBits f)⟩
 
+def parseFloat32Bits (s : String) : Option Float32 :=
+  if s.length ≠ 8 then none
+  else
+    (s.toList.foldlM (fun (acc : Nat) c => (hexVal c).map (fun d => acc * 16 + d)) 0).map
+      (fun n => Float32.ofBits n.toUInt32)
+
+/-- 8 hex digits of the IEEE-754 binary32 bits; every NaN prints as `nan` -/
+def printFloat32Bits (f : Float32) : String :=
+  if f.isNaN then "nan"
+  else
+    let b := f.toBits.toNat
+    String.ofList ((List.range 8).map (fun i => hexDigit ((b >>> (4 * (7 - i))) % 16)))
+
+instance : ScalarIO Float32 := ⟨parseFloat32Bits, fun f => some (printFloat32Bits f)⟩
+
 section
 variable {α : Type} [ScalarIO α]
 
@@ -334,6 +349,9 @@ def runLine (line : String) : String :=
       | "Q" => (runOp (α := Rat)).run rest
       | "F" => (runOp (α := Float)).run rest
       | "I" => (runOp (α := Z64)).run rest
+      -- f32 elements (model at IEEE binary32); i32 elements (same integer model as i64: the inputs stay far from overflow)
+      | "G" => (runOp (α := Float32)).run rest
+      | "J" => (runOp (α := Z64)).run rest
       | _ => .error s!"bad scalar type {s}"
     match r with
     | .ok (out, []) => s!"{id} {out}"
